@@ -190,6 +190,7 @@ interior_node::delete_of(Token token, tree_instance* ti, base_node* const child)
                 // remove this node and promote its last child node one level
                 set_version_deleted(true);
                 n_keys_decrement();
+                YK_VP(k_store, &n_keys_, 1, 0);
                 base_node* sibling = get_child_at(1 - i); // i == 0 or 1
                 base_node* pn = lock_parent(ti);
                 if (pn == nullptr) { // if this node is masstree root
@@ -230,6 +231,7 @@ interior_node::delete_of(Token token, tree_instance* ti, base_node* const child)
                 }
                 set_key(n_key - 1, 0, 0);
                 n_keys_decrement();
+                YK_VP(k_store, &n_keys_, 1, 0);
                 version_unlock();
             }
             return;
